@@ -254,7 +254,9 @@ class JSON(Filetype):
         )
 
     def build_tree(self, path: str, options: Optional[BuildOptions] = None) -> TreeNode:
-        with open(path) as f:
+        # binary mode, like the YAML and plist loaders: the text encoding is detected from the bytes (UTF-8/16/32, with
+        # or without a byte order mark) rather than taken from the locale
+        with open(path, 'rb') as f:
             return build_tree(json.load(f), options)
 
     def build_tree_handling_errors(self, path: str, options: Optional[BuildOptions] = None) -> Union[str, TreeNode]:
@@ -288,7 +290,8 @@ class JSON5(Filetype):
         )
 
     def build_tree(self, path: str, options: Optional[BuildOptions] = None) -> TreeNode:
-        with open(path) as f:
+        # binary mode, like the other loaders: json5 decodes the bytes as UTF-8 rather than with the locale's encoding
+        with open(path, 'rb') as f:
             return build_tree(json5.load(f), options)
 
     def build_tree_handling_errors(self, path: str, options: Optional[BuildOptions] = None) -> Union[str, TreeNode]:
